@@ -83,6 +83,11 @@ def run(item, ctx, tier, seed):
             if not ok:
                 continue
             ctx.state()
+            if gkind == "irregular" and (ep, en) == tuple(b["easy"][0]):
+                from mc.derived import check_input_independence
+
+                check_input_independence(ctx, case, pos, neg, dict(nb_easy_pos=ep, nb_easy_neg=en, score_class=sc, equal_class=ec),
+                                         lambda o: (float(o.auc()), float(o.auc(0.25, 0.75))))
             # --- full AUC == Mann-Whitney -------------------------------------
             want = refs.ref_mann_whitney(pos, neg, sc, ep, en)
             ok, got = guarded(ctx, "auc-full", case, lambda: float(s.auc()))
